@@ -133,7 +133,16 @@ type vhPipeEnd struct {
 	peer    *vhPipeEnd
 	pending []byte
 	eof     bool
+	// deadlines as net.Conn documents them: absolute instants; once passed, every
+	// Read / Write fails until the deadline is moved or cleared (zero value)
+	rdl, wdl time.Time
 }
+
+var vhErrDeadline = errors.New("i/o timeout (deadline exceeded)")
+
+func (c *vhPipeEnd) SetDeadline(t time.Time) error      { c.rdl, c.wdl = t, t; return nil }
+func (c *vhPipeEnd) SetReadDeadline(t time.Time) error  { c.rdl = t; return nil }
+func (c *vhPipeEnd) SetWriteDeadline(t time.Time) error { c.wdl = t; return nil }
 
 func vhNewPipe() (*vhPipeEnd, *vhPipeEnd) {
 	a := &vhPipeEnd{vhConn: vhConn{cut: -1}, in: make(chan []byte, 32)}
@@ -143,6 +152,9 @@ func vhNewPipe() (*vhPipeEnd, *vhPipeEnd) {
 }
 
 func (c *vhPipeEnd) Write(p []byte) (int, error) {
+	if !c.wdl.IsZero() && time.Now().After(c.wdl) {
+		return 0, vhErrDeadline
+	}
 	c.peer.in <- append([]byte{}, p...)
 	return len(p), nil
 }
@@ -150,6 +162,9 @@ func (c *vhPipeEnd) Write(p []byte) (int, error) {
 func (c *vhPipeEnd) CloseWrite() { close(c.peer.in) }
 
 func (c *vhPipeEnd) Read(p []byte) (int, error) {
+	if !c.rdl.IsZero() && time.Now().After(c.rdl) {
+		return 0, vhErrDeadline
+	}
 	if len(c.pending) == 0 && !c.eof {
 		b, ok := <-c.in
 		if !ok {
@@ -223,6 +238,48 @@ func VH_C11_first_frames_after_handshake() {
 		}
 	}
 	vrtReach("established-and-delivered")
+}
+
+// VH_C11_link_outlives_handshake: the same establishment, then the link stays
+// healthy and idle for longer than the handshake's own time limit (virtual
+// clock; the in-memory link honours read/write deadlines the way net.Conn
+// documents them). Frames sent afterwards are written without error and
+// delivered: a time limit meant for the handshake must not end the connection.
+func VH_C11_link_outlives_handshake() {
+	dial, acc := vhNewPipe()
+	b1 := []byte{1, vrtUint8()}
+	h := &vhHandler{}
+	var dialErr, accErr, writeErr error
+	established := make(chan struct{})
+	var wg sync.WaitGroup
+	wg.Add(2)
+	go func() {
+		defer wg.Done()
+		_, dialErr = newTCPConnectionActor(true, dial, "srv:1", vhFrameCodec{}, &vhHandler{})
+		if dialErr == nil {
+			<-established // both handshakes are done
+			vrtAdvance(time.Duration(vrtParam("idle_s", 11)) * time.Second)
+			_, writeErr = dial.Write(vhFrame(b1, false))
+		}
+		dial.CloseWrite()
+	}()
+	go func() {
+		defer wg.Done()
+		var c *tcpConnectionActor
+		c, accErr = newTCPConnectionActor(false, acc, "srv:1", vhFrameCodec{}, h)
+		close(established)
+		if accErr != nil {
+			return
+		}
+		ctx := &vhCtx{ref: &vhRef{"l:1", "/conn"}, stream: &vhStream{}}
+		vhDrive(c, ctx, 16)
+	}()
+	wg.Wait()
+	vrtRaceOff()
+	vrtAssert(dialErr == nil && accErr == nil, "handshake-completes")
+	vrtAssert(writeErr == nil, "healthy-idle-link-still-writable-after-the-handshake-time-limit")
+	vrtAssert(len(h.got) == 1, "frame-sent-after-idle-period-delivered")
+	vrtReach("idle-then-delivered")
 }
 
 // VH_C11_concurrent_senders: two goroutines send through one remoting mailbox
